@@ -1,4 +1,5 @@
 import AgModel.Spec.Protocol
+import Mathlib.Algebra.BigOperators.Fin
 /-!
 # C01 — Finalization agreement
 
@@ -452,3 +453,71 @@ theorem finalized_not_skipped (S : Setting stake C H byz) (b : Block) (hf : Fina
     ¬ SkipCert stake H (C.slot b) := (final_excludes S b hf).1
 
 end AgModel.Spec
+
+/-! ### non-vacuity: a concrete setting satisfying all hypotheses, with a finalized block -/
+namespace AgModel.Spec.Example
+open AgModel.Spec Classical
+
+/-- 6 validators with stake 1; validator 5 is Byzantine (1/6 < 20 %) and silent -/
+def stake : Fin 6 → ℕ := fun _ => 1
+def byz : Fin 6 → Prop := fun v => v = 5
+
+/-- blocks are natural numbers: block `b` is in slot `b`, its parent is `b - 1`, genesis is `0` -/
+def C : Chain ℕ where
+  slot := id
+  parent := fun b => b - 1
+  genesis := 0
+  slot_genesis := rfl
+  zero_is_genesis := fun _ h => h
+  parent_lt := fun b hb => by simp only [id]; omega
+
+/-- the five correct validators notarize genesis (by convention) and block 1, and finalize-vote slot 1 -/
+def H : History (Fin 6) ℕ where
+  notar := fun v b => v ≠ 5 ∧ b ≤ 1
+  nf := fun _ _ => False
+  skip := fun _ _ => False
+  sf := fun _ _ => False
+  fin := fun v s => v ≠ 5 ∧ s = 1
+
+theorem total_eq : total stake = 6 := by
+  unfold total stake; simp
+
+theorem w_byz : w stake byz = 1 := by
+  have h : (Finset.univ.filter (fun v : Fin 6 => v = 5)).card = 1 := by decide
+  unfold w stake byz
+  simp
+  convert h
+
+theorem w_notar1 : w stake (fun v => H.notar v 1) = 5 := by
+  have h : (Finset.univ.filter (fun v : Fin 6 => ¬ v = 5)).card = 5 := by decide
+  unfold w stake H
+  simp
+  convert h
+
+theorem setting : Setting stake C H byz := by
+  refine ⟨by rw [w_byz, total_eq]; decide, ?_⟩
+  intro v hv
+  refine ⟨?_, ?_, ?_, ?_, ?_, ?_⟩
+  · intro b b' _ _ hs; exact hs
+  · intro b _ h; exact h
+  · intro s hs
+    obtain ⟨hv5, rfl⟩ := hs
+    refine ⟨⟨1, rfl, ⟨hv5, Nat.le_refl 1⟩, ?_⟩, fun h => h, fun h => h, fun _ _ h => h⟩
+    unfold NotarCert notarW; rw [Q_iff, w_notar1, total_eq]; decide
+  · intro x h; exact h.elim
+  · intro s h; exact h.elim
+  · intro x hx hxg
+    obtain ⟨hv5, hle⟩ := hx
+    have hx1 : x = 1 := by
+      have : x ≠ 0 := hxg
+      omega
+    subst hx1
+    refine ⟨fun hw => ?_, fun _ => ⟨⟨hv5, by decide⟩, rfl⟩⟩
+    unfold windowStart Gen.SLOTS_PER_WINDOW at hw; simp [C] at hw
+
+/-- block 1 is finalized (fast path: 5/6 ≥ 80 %), so the theorems above apply non-vacuously -/
+example : FinalizedAt stake C H 1 := by
+  left
+  unfold FastFinalCert notarW; rw [Strong_iff, w_notar1, total_eq]; decide
+
+end AgModel.Spec.Example
